@@ -154,6 +154,14 @@ def _norm_td(t):
                 return b
             if a == C(-1):
                 return ("op", "neg", b)
+    if t[0] == "op" and t[1] == "//" and len(t) == 4 and t[3] == N("_1_microsecond") and t[2][0] == "call" and dotted(t[2][1]) == "abs" and len(t[2][2]) == 1 and not t[2][3]:
+        # a timedelta is a whole number of microseconds: abs(X) // 1us is abs(X // 1us)
+        return ("call", N("abs"), (("op", "//", t[2][2][0], t[3]),), ())
+    if t[0] == "op" and t[1] == "<" and len(t) == 4 and t[3] == C(0) and t[2][0] == "a" and t[2][2] == "days":
+        # the normalised form of a timedelta has days < 0 exactly when it is negative
+        return ("op", "<", ("op", "//", t[2][1], N("_1_microsecond")), C(0))
+    if t[0] == "op" and t[1] == "<" and len(t) == 4 and t[3][0] == "call" and dotted(t[3][1]) in ("timedelta", "datetime.timedelta") and (not t[3][2] or t[3][2] == (C(0),)) and not t[3][3]:
+        return ("op", "<", ("op", "//", t[2], N("_1_microsecond")), C(0))
     if t[0] == "op" and t[1] == "+" and len(t) == 4:
         for a, b in ((t[2], t[3]), (t[3], t[2])):
             fr = _floor_base(b)
@@ -176,6 +184,10 @@ def _same_sign_by_ranges(sec: Sym, nan: Sym, val) -> Optional[Tuple[str, str]]:
     if bq[0] != "q" or br[0] != "r" or bq[1] != br[1] or bq[2] != br[2]:
         return None
     num, D = bq[1], bq[2][1]
+    if aq in (1, -1) and ar != 0 and (ar > 0) != (aq > 0) and num[0] == "call" and dotted(num[1]) == "abs" and len(num[2]) == 1:
+        # quotient and remainder of a magnitude are both non-negative: scaled with opposite signs they have opposite signs
+        return ("bad", f"on the path {val_text_(val)} seconds = {show(sec)} and nanos = {show(nan)} are the quotient and the remainder of a magnitude scaled with opposite signs: "
+                       "for a negative Duration with a fraction the parts have opposite signs and do not add up to the value (-1.5 s becomes -1 s +5e8 ns = -0.5 s)")
     if aq not in (1, -1) or ar == 0 or (ar // aq) <= 0 or ar % aq:
         return ("inc", f"seconds = {show(sec)}, nanos = {show(nan)}: scaling not recognised")
     K = ar // aq
